@@ -1031,6 +1031,25 @@ def sqrt(x):
     raise Unsupported("np.sqrt of an array")
 
 
+def save(file, arr, **kw):
+    """np.save under the SpecFS contract: the file holds a copy of the array."""
+    from .stubs_fs import Doc, SpecPath
+    if not isinstance(file, SpecPath):
+        raise Unsupported("np.save to a real path under the model")
+    file.fs.files[file.p] = Doc(_np.array(_np.asarray(arr), copy=True), "npy")
+    file.fs.effect("np.save", file.p)
+
+
+def load(file, **kw):
+    from .stubs_fs import Doc, SpecPath
+    if not isinstance(file, SpecPath):
+        raise Unsupported("np.load from a real path under the model")
+    c = file.fs.files.get(file.p)
+    if not isinstance(c, Doc) or c.kind != "npy":
+        raise FileNotFoundError(file.p)
+    return _W(_np.array(c.obj, copy=True))
+
+
 class _Linalg:
     @staticmethod
     def norm(x, ord=None, axis=None, keepdims=False):
